@@ -280,6 +280,9 @@ def _node(draw, ctx, kind, depth, regions, in_ruby_annot=False, plain_self=False
   if kind == "br":
     if prof["br_styles"] and draw(st.integers(0, 3)) == 0:
       n["styles"] = _styles(draw, ctx, (1, 2))
+    if prof["br_styles"] and prof["animation"] and draw(st.integers(0, 4)) == 0:
+      # a set child of br (the IMSC reader accepts it): a colour, which changes nothing about the line break
+      n["anims"] = [("Color", draw(opt_time(prof, 0.5)), draw(opt_time(prof, 0.5)), draw(value_strategy("Color", prof)))]
     return n
   plain = (in_ruby_annot or plain_self) and not prof["ruby_timed"]
   if not plain:
